@@ -79,7 +79,8 @@ def harness(sym):
 def _shards(tier):
     if tier == "quick":
         return [{"n": 4, "ops": [a, b]} for a in OPS for b in OPS]
-    return [{"n": 5, "ops": [a, b, c]} for a in OPS for b in OPS for c in OPS]
+    third = [o for o in OPS if o in ("write_batch", "tick6")] or OPS[:2]
+    return [{"n": 5, "ops": [a, b, c]} for a in OPS for b in OPS for c in third]
 
 
 OBLIGATIONS = [Obligation(
@@ -94,7 +95,7 @@ OBLIGATIONS = [Obligation(
              "openpectus.engine.hardware_recovery:ErrorRecoveryDecorator.tick"],
     symbolic="per cycle: operation selector, commanded int values (32-bit range), hardware failure bit, reconnect failure bit, elapsed seconds 0..20000",
     bounds={"quick": "4 cycles over {write_batch(A,B), write(A), write(B), read_batch, 1 tick, 6 ticks}, two registers",
-            "thorough": "5 cycles, same operations"},
+            "thorough": "5 cycles, same operations (third cycle: a batch write or 6 ticks; every other cycle any operation)"},
     assumptions=["hardware_recovery.time replaced by a harness clock (arbitrary non-decreasing integer seconds)",
                  "_setup_decorated_method_forwards stubbed (irrelevant to writes)",
                  "decorated hardware = in-memory fake raising HardwareLayerException on a symbolic failure bit",
